@@ -118,6 +118,13 @@ def templates(tier="quick"):
               Stmt("top", ex=["out"])]
     add("dyndep_output_is_its_own_input_midbuild", [Variant("v0", stself)], ["out", "top"], files={"dd.in": ddself})
     add("dyndep_output_is_its_own_input_present", [Variant("v0", stself)], ["out", "top"], files={"dd.in": ddself, "dd": ddself})
+    # a dyndep file made in the build turns a file that a *running* statement reads into an output of the statement that
+    # waits for that one (out | x, mid: x, out: mid): diagnosed when the file is loaded while mid runs (when mid has finished
+    # by then it is the known finding F17)
+    ddrun = dyndep_text([("out", ["x"], [], False)])
+    strun = [Stmt("dd", ex=["dd.in"], copy=True), Stmt("mid", ex=["x"]), Stmt("out", ex=["in", "mid"], oo=["dd"], dyndep="dd", extra_outs=["x"]),
+             Stmt("top", ex=["out"])]
+    add("dyndep_output_cycle_through_a_running_statement", [Variant("v0", strun)], ["top"], files={"dd.in": ddrun, "x": "x-v0\n"})
     # acyclic dyndep control
     dd2 = dyndep_text([("out", [], ["extra"], False)])
     stm2 = [Stmt("dd", ex=["dd.in"], copy=True), Stmt("out", ex=["in"], oo=["dd"], dyndep="dd", extra_reads=["extra"]),
